@@ -25,10 +25,11 @@ func TestC19(t *testing.T) {
 	cmds := &w.Alpha{Kubectl: allKubectl}
 	canaryCmds := []string{"canary-pause", "canary-unpause", "canary-validate", "canary-fail"}
 	// Templates "B": after a rollback the user may re-apply the template that just failed
-	cmdsCanary := &w.Alpha{Kubectl: append(append([]string{}, canaryCmds...), "freeze-rollout", "pause-rolling-update"), PodDev: []string{"restart:2"}, Templates: []string{"B"}}
+	cmdsCanary := &w.Alpha{Kubectl: append(append([]string{}, canaryCmds...), "freeze-rollout", "pause-rolling-update"), PodDev: []string{"restart:2"}, Templates: []string{"B"},
+		MidCmds: []string{"canary-fail", "canary-pause"}}
 	cmdsLater := &w.Alpha{Kubectl: []string{"canary-validate", "canary-pause"}, Templates: []string{"C"}}
 	if h.Thorough() {
-		cmdsCanary = &w.Alpha{Kubectl: allKubectl, PodDev: []string{"restart:2"}, Templates: []string{"C"}}
+		cmdsCanary = &w.Alpha{Kubectl: allKubectl, PodDev: []string{"restart:2"}, Templates: []string{"C"}, MidCmds: canaryCmds}
 		cmdsLater = &w.Alpha{Kubectl: allKubectl, Templates: []string{"C"}}
 	}
 	s2 := corpusS2(nodes, "1", b, cmds)
@@ -55,6 +56,7 @@ func TestC19(t *testing.T) {
 	for _, c := range allKubectl {
 		requireAntecedents(run, "C19/command-succeeded:"+c)
 	}
+	requireAntecedents(run, "C19/command-overtook-reconcile:canary-fail", "C19/command-overtook-reconcile:canary-pause")
 	// interpretation by the controller: run the fair closure (no validation by the driver) from states reached
 	// after a successful command and look at the outcome
 	parallel(len(after), func(i int) {
